@@ -98,12 +98,16 @@ def mkobj(c, sub=None):
 def mkgrid(cg, share=False, sub=None):
     if not share:
         return Grid([[mkobj(c, sub) for c in row] for row in cg])
-    # equal objects without mutable state of their own (no status, no content) are ONE python object placed in several cells
+    # equal objects which no built-in function modifies (no status anywhere: not a door, not a box holding a door) are ONE python object
+    # placed in several cells -- a box prototype used for several cells is as legitimate as a wall prototype
     pool = {}
 
-    def get(c):
+    def has_status(c):
         cls, names = _ctor(c[0])
-        if 'state' in names or 'content' in names:
+        return 'state' in names or (c[3] is not None and has_status(c[3]))
+
+    def get(c):
+        if has_status(c):
             return mkobj(c, sub)
         if c not in pool:
             pool[c] = mkobj(c, sub)
